@@ -556,8 +556,9 @@ class Parser:
                 end_col_offset=end[1] if end else values[-1].end_col_offset,
             )
 
-        if path_tok := (path_tok or self._path_token):
-            node = xonsh_call("__xonsh__.path_literal", node, **path_tok.loc())
+        if path_tok or self._path_token:
+            locs = {attr: getattr(node, attr) for attr in node._attributes}  # the whole literal
+            node = xonsh_call("__xonsh__.path_literal", node, **locs)
             self._path_token = None
         return node
 
